@@ -174,11 +174,9 @@ pub fn fuzz_seqmodel(data: &[u8]) {
     }
 }
 
-/// second half of target `kinds`: mixed-kind programs (C12mix / C15mix) with the operations that
-/// run into the open finding F9a left out by construction
+/// second half of target `kinds`: mixed-kind programs (C12mix / C15mix)
 fn fuzz_mix(u: &mut Unstructured) {
     use crate::mixseq::*;
-    AVOID_F9A.store(true, std::sync::atomic::Ordering::Relaxed);
     let r: Result<MCase> = (|| {
         let val = |u: &mut Unstructured| -> Result<MVal> {
             Ok(match u.int_in_range(0u8..=8)? {
